@@ -49,8 +49,15 @@ func NewParser(srcPath, dstPath string) (*Parser, error) {
 
 	dstStat, _ := os.Stat(dstPath)
 	var parseErr error
+	// The package is looked up from the directory of the input file, not from the working
+	// directory: outside the module "go list" would see the file alone, without its siblings.
+	absSrcPath, err := filepath.Abs(srcPath)
+	if err != nil {
+		return nil, err
+	}
 	cfg := &packages.Config{
 		Mode:       parserLoadMode,
+		Dir:        filepath.Dir(absSrcPath),
 		BuildFlags: []string{"-tags", buildTag},
 		Fset:       fileSet,
 		Overlay:    overlayForPreviousOutput(srcPath, dstPath, dstStat),
@@ -78,7 +85,7 @@ func NewParser(srcPath, dstPath string) (*Parser, error) {
 			return file, nil
 		},
 	}
-	pkgs, err := packages.Load(cfg, "file="+srcPath)
+	pkgs, err := packages.Load(cfg, "file="+absSrcPath)
 	if err != nil {
 		return nil, logger.Errorf("%v: failed to load type information: \n%w", srcPath, err)
 	}
